@@ -1,6 +1,7 @@
 ------------------------------ MODULE Gen_C09 ------------------------------
 EXTENDS EnvGen
-C09Cfgs == { [nsrv |-> 3, tries |-> 2, timeout |-> 1000, seed |-> 1, retrychance |-> 1, retrydelay |-> 0],
+C09Cfgs == { [nsrv |-> 2, tries |-> 2, timeout |-> 1000, seed |-> 9, retrychance |-> 0,
+               servers |-> "dns://10.0.0.1:5301?tcpport=5302,dns://10.0.0.2:5301?tcpport=5302"], [nsrv |-> 3, tries |-> 2, timeout |-> 1000, seed |-> 1, retrychance |-> 1, retrydelay |-> 0],
              [nsrv |-> 3, tries |-> 2, timeout |-> 1000, seed |-> 2, rotate |-> 1, retrychance |-> 0],
              [nsrv |-> 2, tries |-> 2, timeout |-> 1000, seed |-> 3, retrychance |-> 1, retrydelay |-> 1500],
              [nsrv |-> 3, tries |-> 1, timeout |-> 500, seed |-> 7, rotate |-> 1, retrychance |-> 1, retrydelay |-> 0] }
